@@ -76,20 +76,38 @@ var (
 	goodLists = [][]string{{"r1"}, {"/mnt/a", "/mnt/b"}, {"./s1", "./s2", "./s3"}, {"only"}}
 	badNum    = []string{"abc", "12abc", "--3", "0x", "1e", "ten"}
 	badUint   = []string{"abc", "-5", "12abc", "-1"}
+	// environment values are plain decimal numbers: leading zeros are still decimal, a hexadecimal
+	// literal is not a number of that form
+	goodIntsEnvOnly  = []string{"007", "08080", "+5"}
+	goodUintsEnvOnly = []string{"0500", "000250", "099", "00"}
+	badNumEnvOnly    = []string{"0x1F", "0b11", "1_000"}
 	badDur    = []string{"abc", "5 parsecs", "1mm", "--1s", "ms"}
 )
 
 func genValue(t *rapid.T, kind string, bad bool, label string) string {
 	pick := func(xs []string) string { return rapid.SampledFrom(xs).Draw(t, label) }
+	env := label == "env"
 	switch kind {
 	case "int":
 		if bad {
+			if env {
+				return pick(append(append([]string{}, badNum...), badNumEnvOnly...))
+			}
 			return pick(badNum)
+		}
+		if env {
+			return pick(append(append([]string{}, goodInts...), goodIntsEnvOnly...))
 		}
 		return pick(goodInts)
 	case "uint":
 		if bad {
+			if env {
+				return pick(append(append([]string{}, badUint...), badNumEnvOnly...))
+			}
 			return pick(badUint)
+		}
+		if env {
+			return pick(append(append([]string{}, goodUints...), goodUintsEnvOnly...))
 		}
 		return pick(goodUints)
 	case "dur":
